@@ -137,3 +137,20 @@ package checker
 //@   loop#1 decreases len(names) - rangeindex
 //@   loop#1 invariant old(l.list != nil) ==> l.addedTypeNames == old(l.addedTypeNames) && len(l.addedTypeNames) >= old(len(l.addedTypeNames))
 //@   loop#1 invariant (old(l.list == nil) ==> fresh(l.addedTypeNames)) && (l.list.arr == old(l.list.arr) || fresh(l.list)) && len(l.addedTypeNames) >= 0
+
+// ---- allowed JSON types of a node (C02): the recursion through type references ends ---------------------------------
+// collectAllowedJsonTypes follows the names of a node's type list; foundTypeNames holds the names met so far and a name met
+// twice is refused (ErrImpossibleToDetermineTheJsonTypeDueToRecursion), so every recursive call happens with one more registered name in the set.
+
+//@ func (*checkSchema).collectAllowedJsonTypes
+//@   property C02
+//@   requires c != nil && c.rootSchema != nil && c.allowedJsonTypes != nil && c.foundTypeNames != nil && len(c.foundTypeNames) >= 0
+//@   requires forall k string :: k in c.foundTypeNames ==> (k in c.rootSchema.types || k in ss)
+//@   may_panic
+//@   modifies mapof(c.foundTypeNames), mapof(c.allowedJsonTypes)
+//@   decreases len(c.rootSchema.types) + len(ss) - len(c.foundTypeNames)
+//@   ensures (forall k string :: k in c.foundTypeNames ==> (k in c.rootSchema.types || k in ss)) && len(c.foundTypeNames) >= old(len(c.foundTypeNames))
+//@   at call:collectAllowedJsonTypes use keys_subset2_len(c.foundTypeNames, c.rootSchema.types, ss)
+//@   loop#1 invariant rangeindex >= -1
+//@   loop#2 invariant rangeindex >= -1
+//@   loop#3 invariant rangeindex >= -1 && (forall k string :: k in c.foundTypeNames ==> (k in c.rootSchema.types || k in ss)) && len(c.foundTypeNames) >= old(len(c.foundTypeNames))
